@@ -1,6 +1,6 @@
 //! C07 / C08 (and the poll-loop part of C17): the device-flow poll loop under a scripted
 //! server, a scripted clock and a recording sleep function.
-use crate::exec::{block_on, Delay};
+use crate::exec::{parse_variant, Delay};
 use crate::kinds::{self, FakeError};
 use crate::proto::*;
 use chrono::{DateTime, Utc};
@@ -166,17 +166,21 @@ pub fn run(ws: &[&str]) -> String {
     if let Some(b) = backoff {
         req = req.set_max_backoff_interval(b);
     }
-    let res = if variant == "sync" {
+    let var = match parse_variant(variant) {
+        Some(v) => v,
+        None => return BAD.into(),
+    };
+    let res = if var.is_sync() {
         render_result(&req.request(&next_reply, log_sleep, timeout))
     } else {
-        // async[:k] — every inner future reports Pending k times first
-        let k: usize = variant.strip_prefix("async:").and_then(|s| s.parse().ok()).unwrap_or(0);
+        // every inner future reports Pending k times first
+        let k = var.k();
         let http = |r: HttpRequest| Delay { n: k, v: Some(next_reply(r)) };
         let sleep = |d: Duration| {
             log_sleep(d);
             Delay { n: k, v: Some(()) }
         };
-        render_result(&block_on(req.request_async(&http, sleep, timeout)))
+        render_result(&var.drive(req.request_async(&http, sleep, timeout)))
     };
     let mut all: Vec<(usize, String)> = time_log.lock().unwrap().clone();
     all.extend(other_log.borrow().iter().cloned());
